@@ -50,6 +50,8 @@ type CfgDoc struct {
 	PIn    *DocIn              `dials:"p_in"`
 	IP     net.IP              `dials:"ip"`
 	Peers  []DocPeer           `dials:"peers"`
+	// a format-specific tag takes precedence over the dials tag
+	Alt string `dials:"alt_dials" json:"alt_fmt" yaml:"alt_fmt" toml:"alt_fmt"`
 }
 
 // DocVal: which leaves a document sets, and to what.
@@ -71,6 +73,7 @@ type DocVal struct {
 	PInPort   *int           `json:"p_in_port,omitempty"`
 	IP        *string        `json:"ip,omitempty"`
 	Peers     []PeerVal      `json:"peers,omitempty"`
+	Alt       *string        `json:"alt,omitempty"`
 }
 
 type PeerVal struct {
@@ -147,6 +150,9 @@ func (g *gen) docVal(p int) DocVal {
 	}
 	if g.pct(p) {
 		v.IP = sp(fmt.Sprintf("10.1.%d.%d", n%250, (n*7)%250))
+	}
+	if g.pct(p) {
+		v.Alt = sp(fmt.Sprintf("alt%d", n))
 	}
 	if g.pct(p) {
 		for i, k := 0, g.in(1, 3); i < k; i++ {
@@ -255,6 +261,9 @@ func (v *DocVal) expected(def *DocVal) *CfgDoc {
 		if l.IP != nil {
 			c.IP = net.ParseIP(*l.IP)
 		}
+		if l.Alt != nil {
+			c.Alt = *l.Alt
+		}
 		if l.Peers != nil {
 			c.Peers = nil
 			for _, pv := range l.Peers {
@@ -334,6 +343,9 @@ func (v *DocVal) fields(format string) (top []kv, limits []kv, in []kv, pin []kv
 	}
 	if v.IP != nil {
 		top = append(top, kv{"ip", str(*v.IP)})
+	}
+	if v.Alt != nil {
+		top = append(top, kv{"alt_fmt", str(*v.Alt)})
 	}
 	if v.Limits != nil {
 		keys := make([]string, 0, len(v.Limits))
@@ -792,7 +804,7 @@ func (r *streamRun) checkUnset(format string, val reflect.Value, v *DocVal, doc 
 	want := map[string]bool{
 		"Name": v.Name == nil, "Count": v.Count == nil, "Ratio": v.Ratio == nil, "On": v.On == nil, "Wait": v.WaitNS == nil,
 		"When": v.When == nil, "Tags": v.Tags == nil, "Nums": v.Nums == nil, "Limits": v.Limits == nil, "Set": v.Set == nil,
-		"In": v.InHost == nil && v.InPort == nil, "PIn": v.PInHost == nil && v.PInPort == nil, "IP": v.IP == nil, "Peers": v.Peers == nil,
+		"In": v.InHost == nil && v.InPort == nil, "PIn": v.PInHost == nil && v.PInPort == nil, "IP": v.IP == nil, "Peers": v.Peers == nil, "Alt": v.Alt == nil,
 	}
 	names := make([]string, 0, len(want))
 	for n := range want {
